@@ -1,3 +1,159 @@
 import B6.Driver.Common
-/-! Driver for C03 — stub (the check for this property is not built yet). -/
-def main : IO Unit := B6.Driver.run { σ := Unit, init := (), step := fun s _ _ => (s, .bad) }
+import B6.Model.FeatureSearch
+/-!
+Driver for C03.  One case = one world (its features as the world itself reports them), then queries.
+
+ops:
+  `world <kind>`                                 answer `ok`     kind ∈ basic | mutable | mutable-overlay | overlay
+  `feat <type>/<ns>/<value> n=<ntags> [k=v …]`    answer `ok`     the listed tags are those with keys of the test
+                                                                  alphabet, in order; `n` = len(AllTags())
+  `find <q>`                                      answer `[id …]` in the order FindFeatures returned them | `panic`
+  `matches <q>`                                   answer `[id …]` the dumped features (dump order) whose Go
+                                                                  `Query.Matches` is true | `panic`
+  `merge [id …] | [id …] | …`                     answer `[id …]` b6.MergeFeatures over these streams
+  q ::= ( all ) | ( empty ) | ( tagged <key> '<value> ) | ( keyed <key> ) | ( typed <type> q ) | ( and q* ) | ( or q* )
+
+`find`: the answer must be `Spec.Query.expected` (ids of the searchable features whose tags satisfy `denote q`,
+strictly increasing) — `propfail find`.  Known class `tagged-at-key`: the query has a `tagged` node on an `@` key
+and the implementation answers exactly what the model of the current code answers.
+`matches`: must be the features with `denote q` — `propfail matches`.
+-/
+open B6.Driver B6.Spec.Cursor B6.Spec.SearchQuery B6.Spec.TagQuery B6.Model.Search B6.Model.FeatureSearch
+namespace B6.Driver.C03
+
+def typeNames : List (String × Nat) :=
+  [("point", 0), ("path", 1), ("area", 2), ("relation", 3), ("collection", 5), ("expression", 6)]
+
+/-- the namespaces the harness uses, in increasing (byte) order; index 0 is the invalid namespace -/
+def namespaces : List String := ["nsa", "nsb", "nsc"]
+
+def nsIndex (s : String) : Option Nat := (namespaces.idxOf? s).map (· + 1)
+
+structure Feat where
+  word : String
+  f : Feature
+
+def parseID (w : String) : Option (Nat × Nat × Nat) :=
+  match w.splitOn "/" with
+  | [t, ns, v] =>
+    match typeNames.lookup t, nsIndex ns, v.toNat? with
+    | some t, some ns, some v => some (t, ns, v)
+    | _, _, _ => none
+  | _ => none
+
+def parseTag (w : String) : Option (Token × Token) :=
+  match w.splitOn "=" with
+  | [] => none
+  | [_] => none
+  | k :: rest => some (k.toList, ("=".intercalate rest).toList)
+
+mutual
+partial def parseQuery (ws : List String) : Option (Query × List String) :=
+  match ws with
+  | "(" :: "all" :: ")" :: rest => some (.all, rest)
+  | "(" :: "empty" :: ")" :: rest => some (.empty, rest)
+  | "(" :: "tagged" :: k :: v :: ")" :: rest =>
+    match v.toList with
+    | '\'' :: vs => some (.tagged k.toList vs, rest)
+    | _ => none
+  | "(" :: "keyed" :: k :: ")" :: rest => some (.keyed k.toList, rest)
+  | "(" :: "typed" :: t :: rest =>
+    match typeNames.lookup t, parseQuery rest with
+    | some t, some (q, ")" :: rest') => some (.typed t q, rest')
+    | _, _ => none
+  | "(" :: "and" :: rest => (parseQueries rest []).map fun (qs, rest') => (.and qs, rest')
+  | "(" :: "or" :: rest => (parseQueries rest []).map fun (qs, rest') => (.or qs, rest')
+  | _ => none
+partial def parseQueries (ws : List String) (acc : List Query) : Option (List Query × List String) :=
+  match ws with
+  | ")" :: rest => some (acc.reverse, rest)
+  | _ =>
+    match parseQuery ws with
+    | some (q, rest) => parseQueries rest (q :: acc)
+    | none => none
+end
+
+mutual
+/-- the class of the known finding: a `tagged` node whose key starts with `@` (negation of `Query.OK`'s clause) -/
+def hasTaggedAt : Query → Bool
+  | .tagged ('@' :: _) _ => true
+  | .typed _ q => hasTaggedAt q
+  | .and qs => hasTaggedAtList qs
+  | .or qs => hasTaggedAtList qs
+  | _ => false
+def hasTaggedAtList : List Query → Bool
+  | [] => false
+  | q :: qs => hasTaggedAt q || hasTaggedAtList qs
+end
+
+structure St where
+  feats : List Feat := []     -- in dump order
+
+def renderIDs (st : St) (ids : List Nat) : String :=
+  renderList (ids.map fun i => match st.feats.find? (fun x => x.f.id == i) with | some x => x.word | none => s!"?{i}")
+
+def pad (tags : List (Token × Token)) (n : Nat) : List (Token × Token) :=
+  tags ++ (List.range (n - tags.length)).map (fun i => ('~' :: (toString i).toList, []))
+
+def step (st : St) (op impl : String) : St × Verdict :=
+  match words op with
+  | ["world", _] => ({}, if impl == "ok" then .ok else .diff "ok")
+  | "feat" :: idw :: nw :: rest =>
+    match parseID idw, (sdrop nw 2).toNat?, parseBracket (" ".intercalate rest) with
+    | some (t, ns, v), some n, some tagWords =>
+      match tagWords.mapM parseTag with
+      | some tags =>
+        if nw.startsWith "n=" && tags.length ≤ n then
+          ({ st with feats := st.feats ++ [⟨idw, ⟨t, ns, v, pad tags n⟩⟩] }, if impl == "ok" then .ok else .diff "ok")
+        else (st, .bad)
+      | none => (st, .bad)
+    | _, _, _ => (st, .bad)
+  | "find" :: rest =>
+    match parseQuery rest with
+    | some (q, []) =>
+      let fs := st.feats.map (·.f)
+      let spec := renderIDs st (expected fs q)
+      let model := match findFeatures (buildIndex .array fs) q with
+        | .ok ids => renderIDs st ids
+        | .error .panic => "panic"
+        | .error .fuel => "fuel"
+      if impl == spec then (st, if impl == model then .ok else .diff model)
+      else if hasTaggedAt q && impl == model then (st, .propfail "find class=tagged-at-key")
+      else (st, .propfail "find")
+    | _ => (st, .bad)
+  | "matches" :: rest =>
+    match parseQuery rest with
+    | some (q, []) =>
+      let spec := renderList ((st.feats.filter (fun x => denote q x.f)).map (·.word))
+      (st, if impl == spec then .ok else .propfail "matches")
+    | _ => (st, .bad)
+  | "merge" :: _ =>
+    let groups := if op == "merge -" then [] else (sdrop op 6).splitOn " | "
+    match groups.mapM (fun g => (parseBracket g).bind (fun ws => ws.mapM fun w => (parseID w).map fun (t, ns, v) => (w, key t ns v))) with
+    | some streams =>
+      let lists := streams.map (·.map (·.2))
+      if lists.all (fun l => decide (StrictSorted l)) then
+        let word (i : Nat) : String :=
+          match (streams.flatten.find? (fun p => p.2 == i)) with | some p => p.1 | none => s!"?{i}"
+        let spec := renderList ((sortDedup lists.flatten).map word)
+        let o : IterOps Leaf := Leaf.ops
+        let st0 : UnionState Leaf := .fresh (lists.map fun l => ⟨.array, l, 0⟩)
+        let n := lists.flatten.length + 1
+        let rec go : Nat → UnionState Leaf → List Nat → Option (List Nat)
+          | 0, _, _ => none
+          | k + 1, s, acc =>
+            match Merged.next o s with
+            | .ok (true, s') => match Union.value s' with | some v => go k s' (v :: acc) | none => none
+            | .ok (false, _) => some acc.reverse
+            | .error _ => none
+        let model := match go n st0 [] with | some ids => renderList (ids.map word) | none => "panic"
+        (st, if impl == spec then (if impl == model then .ok else .diff model) else .propfail "merge")
+      else (st, .bad)
+    | none => (st, .bad)
+  | _ => (st, .bad)
+
+def family : Family := { σ := St, init := {}, step := step }
+
+end B6.Driver.C03
+
+def main : IO Unit := B6.Driver.run B6.Driver.C03.family
